@@ -56,6 +56,23 @@ fn linearizable<S: Clone>(ops: &[HOp], init: S, apply: &dyn Fn(&S, &HOp) -> Opti
     go(ops, &mut done, init, apply, accept, ops.len(), &mut budget)
 }
 
+
+/// what the schedules actually exercised (goes into the evidence file): threads, calls, overlapping calls, failed compare-exchanges
+fn trace_stats(area: &str, trace: &[Rec], stats: &mut Stats) {
+    let hist = history(trace);
+    let threads: std::collections::BTreeSet<usize> = hist.iter().map(|h| h.tid).collect();
+    stats.hit(&format!("{}:threads={}", area, threads.len()));
+    stats.hit_n(&format!("{}:calls", area), hist.len() as u64);
+    let overlapping = hist.iter().filter(|a| hist.iter().any(|b| a.tid != b.tid && a.call < b.ret && b.call < a.ret)).count();
+    stats.hit_n(&format!("{}:calls-overlapping-another-thread's-call", area), overlapping as u64);
+    let mut switches = 0u64; let mut last: Option<usize> = None; let mut casfail = 0u64; let mut lockwait = 0u64;
+    for r in trace { if let Rec::Op { tid, kind, ok, .. } = r { if last.is_some() && last != Some(*tid) { switches += 1; } last = Some(*tid);
+        if *kind == Kind::Cas && !*ok { casfail += 1; } if matches!(kind, Kind::Lock | Kind::RLock | Kind::WLock) && !*ok { lockwait += 1; } } }
+    stats.hit_n(&format!("{}:context-switches-between-atomic-steps", area), switches);
+    stats.hit_n(&format!("{}:failed-compare-exchanges", area), casfail);
+    stats.hit_n(&format!("{}:lock-attempts-that-had-to-wait", area), lockwait);
+}
+
 // ===================================================================== catom
 pub struct ConcAtomic { pub kinds: &'static [&'static str] }
 
@@ -124,7 +141,7 @@ impl Area for ConcAtomic {
             let sticky = *rng.pick(&[0usize, 50, 85]);
             let spur = *rng.pick(&[0usize, 2, 12]);
             let o = sched::run(bodies, &mut rng, sticky, spur, 4000, None);
-            stats.hit("traces");
+            stats.hit("traces"); trace_stats("catom", &o.trace, stats);
             let fin = cell.raw(); let isf = cell.is_float();
             let hist = history(&o.trace);
             // ---- oracle: the completed calls are explained by executing them one at a time in an order
@@ -184,7 +201,7 @@ impl Area for ConcVec {
             let mut rng = Rng::new(sseed);
             let sticky = *rng.pick(&[0usize, 50, 85]);
             let o = sched::run(bodies, &mut rng, sticky, 0, 4000, None);
-            stats.hit("traces");
+            stats.hit("traces"); trace_stats("cvec", &o.trace, stats);
             if o.stuck { fails.push(Failure { class: "stuck".into(), detail: line.clone() }); model_lines.push(format!("cvec prog={} trace=-", field(&p, "prog").unwrap())); outs.push("stuck".into()); continue; }
             // identity classes of the returned handles: bump each by a distinct power of 1000 and read all
             let hs = handles.lock().unwrap();
@@ -289,7 +306,7 @@ impl Area for ConcHist {
             let mut rng = Rng::new(sseed);
             let sticky = *rng.pick(&[0usize, 50, 85]);
             let o = sched::run(bodies, &mut rng, sticky, 1, 6000, None);
-            stats.hit("traces");
+            stats.hit("traces"); trace_stats("chist", &o.trace, stats);
             // ---- oracle (from the trace's order on shard_and_count): snapshot k = stats of the claims before flip k
             let hist = history(&o.trace);
             let sc_addr = *names.iter().find(|(_, n)| *n == "sc").unwrap().0;
@@ -301,6 +318,14 @@ impl Area for ConcHist {
                 Rec::Op { tid, kind: Kind::FetchAdd, addr, a, .. } if *addr == sc_addr => { if *a == 1u64 << 63 { flips.push((i, *tid, claimed.clone())); } else { claimed.extend(cur_vals.get(tid).cloned().unwrap_or_default()); } }
                 _ => {} } }
             let stats_of = |s: &Vec<f64>| -> String { format!("{}/{:x}/{}", s.len(), s.iter().fold(0.0f64, |a, v| a + *v).to_bits(), bounds.iter().map(|b| s.iter().filter(|v| **v <= *b).count().to_string()).collect::<Vec<_>>().join("+")) };
+            { // windows of the hot/cold protocol that the schedules hit
+              let count_addrs: Vec<usize> = names.iter().filter(|(_, n)| n.ends_with('c') && n.starts_with('s') && n.len() == 3).map(|(a, _)| *a).collect();
+              let mut open: std::collections::BTreeSet<usize> = Default::default(); let (mut flips_inside, mut flips) = (0u64, 0u64); let mut spin_fail = 0u64;
+              for r in o.trace.iter() { if let Rec::Op { tid, kind, addr, a, ok, .. } = r {
+                  if *kind == Kind::FetchAdd && *addr == sc_addr { if *a == 1u64 << 63 { flips += 1; if !open.is_empty() { flips_inside += 1; } } else { open.insert(*tid); } }
+                  else if *kind == Kind::FetchAdd && count_addrs.contains(addr) { open.remove(tid); }
+                  else if *kind == Kind::Cas && count_addrs.contains(addr) && !*ok { spin_fail += 1; } } }
+              stats.hit_n("chist:flips", flips); stats.hit_n("chist:flips-while-an-observation-was-between-claim-and-publish", flips_inside); stats.hit_n("chist:collector-spin-iterations-that-failed", spin_fail); }
             if o.stuck { fails.push(Failure { class: "collect-stuck".into(), detail: format!("an execution did not finish (a collect waits forever or a lock is never released): {}", line) }); }
             else {
                 let mut snaps = 0;
@@ -374,7 +399,7 @@ impl Area for ConcReg {
             let lock = reg.verif_lock_addr();
             let mut rng = Rng::new(sseed); let sticky = *rng.pick(&[0usize, 50, 85]);
             let o = sched::run(bodies, &mut rng, sticky, 0, 4000, None);
-            stats.hit("traces");
+            stats.hit("traces"); trace_stats("creg", &o.trace, stats);
             if o.stuck { fails.push(Failure { class: "stuck".into(), detail: line.clone() }); model_lines.push(format!("creg defs={} prog={} trace=-", defs_txt, field(&p, "prog").unwrap())); outs.push("stuck".into()); continue; }
             // ---- oracle: some order of the calls consistent with real time, executed one at a time on a fresh registry, gives every result and the final content
             let hist = history(&o.trace);
